@@ -158,6 +158,9 @@ func (in *interp) pkgVar(fr *frame, p *pkgInfo, name string, at ast.Node) (value
 		if err != nil {
 			return nil, true, err
 		}
+		if xv, ok := v.(*Val); ok {
+			v = withKind(xv, declKind(vi.typ, xv.ikind, !vi.isConst))
+		}
 		in.pkgInits = append(in.pkgInits, fmt.Sprintf("%s.%s (initialiser at %s evaluated symbolically)", p.name, name, shortPos(in.ld.posOf(vi.expr))))
 	} else {
 		v = in.zeroOf(in.shapeOf(pf, vi.typ, 0), name)
@@ -178,6 +181,7 @@ func (in *interp) eval(fr *frame, e ast.Expr) (value, error) {
 			}
 			v := in.constVal(c)
 			v.pos = in.ld.posOf(x)
+			v.ikind = 1
 			return v, nil
 		}
 		return &opaqueVal{name: x.Value}, nil
@@ -350,6 +354,21 @@ func (in *interp) eval(fr *frame, e ast.Expr) (value, error) {
 	return nil, in.unsupported(e, fmt.Sprintf("expression %T", e))
 }
 
+// declKind: the index-arithmetic class (Val.ikind) of a declared name: an explicit type decides (int: 2, anything else: a
+// machine word); without one, a variable initialised by an untyped constant is an int and a constant stays untyped.
+func declKind(typ ast.Expr, k int8, isVar bool) int8 {
+	if typ != nil {
+		if id, ok := typ.(*ast.Ident); ok && id.Name == "int" {
+			return 2
+		}
+		return 0
+	}
+	if k == 1 && isVar {
+		return 2
+	}
+	return k
+}
+
 func (in *interp) constIndex(fr *frame, e ast.Expr) (int, error) {
 	v, err := in.evalVal(fr, e)
 	if err != nil {
@@ -499,14 +518,24 @@ func (in *interp) call(fr *frame, ce *ast.CallExpr, discardFlags []bool) (value,
 			return in.invoke(cl, nil, nil, args, ce)
 		}
 		if max, ok := scalarTypes[fn.Name]; ok {
-			return in.convert(fr, ce, max)
+			v, err := in.convert(fr, ce, max)
+			if x, isVal := v.(*Val); isVal && err == nil {
+				if x.lo.Sign() < 0 {
+					return nil, in.unsupported(ce, "conversion of a negative index value")
+				}
+				if fn.Name == "int" {
+					return withKind(x, 2), nil
+				}
+				return withKind(x, 0), nil
+			}
+			return v, err
 		}
 		if fn.Name == "len" && len(ce.Args) == 1 {
 			_, lo, hi, err := in.container(fr, ce.Args[0])
 			if err != nil {
 				return nil, err
 			}
-			return in.constInt(int64(hi - lo)), nil
+			return withKind(in.constInt(int64(hi-lo)), 2), nil
 		}
 		if fn.Name == "copy" && len(ce.Args) == 2 {
 			// copy(dst, src) between arrays / slices of known length: element-wise
@@ -850,6 +879,10 @@ func (in *interp) assign(fr *frame, lhs ast.Expr, v value, define bool) error {
 		}
 		in.nameVal(v, l.Name)
 		if define {
+			// x := <untyped integer constant> declares a Go int
+			if x, ok := v.(*Val); ok && x.ikind == 1 {
+				v = withKind(x, 2)
+			}
 			if c, ok := fr.vars[l.Name]; ok {
 				c.v = v
 			} else {
@@ -937,6 +970,9 @@ func (in *interp) exec(fr *frame, s ast.Stmt) ([]value, bool, error) {
 						return nil, false, err
 					}
 					v = x
+					if xv, ok := x.(*Val); ok {
+						v = withKind(xv, declKind(vs.Type, xv.ikind, gd.Tok == token.VAR))
+					}
 				} else {
 					v = in.zeroOf(in.shapeOf(fr, vs.Type, 0), nm.Name)
 				}
@@ -1030,7 +1066,7 @@ func (in *interp) exec(fr *frame, s ast.Stmt) ([]value, bool, error) {
 		if st.Tok == token.DEC {
 			op = token.SUB
 		}
-		v, err := in.binary(op, a, in.constInt(1))
+		v, err := in.binary(op, a, withKind(in.constInt(1), 1))
 		if err != nil {
 			return nil, false, in.unsupported(s, err.Error())
 		}
